@@ -44,8 +44,18 @@ pub fn generate(rng: &mut Rng, fam: Family) -> Value {
             0 => json!({"t": "global"}),
             1 => json!({"t": "distinct"}),
             2 => json!({"t": "topk_agg", "n": rng.range(1, 4)}),
+            3 | 4 => json!({"t": "groupby_filter", "keys": *rng.pick(&["k", "s", "ks"]), "c": rng.below(300) as i64 - 100}),
             _ => json!({"t": "groupby", "keys": *rng.pick(&["k", "k", "s", "ks"])}),
         },
+        Family::Sort if rng.chance(1, 3) => json!({
+            // single-column key (primitive / string cursors instead of the row format); only the key
+            // is projected, so ties are indistinguishable and the sequence is still determined
+            "t": "sort1",
+            "by": *rng.pick(&["s", "s", "k", "v"]),
+            "desc": rng.chance(1, 2),
+            "nulls_first": rng.chance(1, 2),
+            "limit": if rng.chance(1, 3) { json!(rng.range(0, 12)) } else { Value::Null },
+        }),
         Family::Sort => json!({
             "t": "sort",
             "by": *rng.pick(&["k", "k", "s", "v"]),
@@ -53,7 +63,8 @@ pub fn generate(rng: &mut Rng, fam: Family) -> Value {
             "nulls_first": rng.chance(1, 2),
             "limit": if rng.chance(1, 2) { json!(rng.range(0, 12)) } else { Value::Null },
         }),
-        Family::Any => match rng.below(9) {
+        Family::Any => match rng.below(11) {
+            9 | 10 => json!({"t": "groupby_avg", "keys": *rng.pick(&["k", "s", "ks"]), "c": rng.below(300) as i64 - 100}),
             0 => json!({"t": "filter", "c": rng.below(400) as i64 - 100}),
             1 => json!({"t": "union_all"}),
             2 => json!({"t": "union"}),
@@ -120,6 +131,29 @@ pub fn sql(q: &Value) -> Option<String> {
             };
             format!("SELECT {keys}, count(*), count(v), sum(v), min(v), max(v), count(DISTINCT v) FROM a GROUP BY {keys}")
         }
+        "groupby_filter" => {
+            let keys = match q.get("keys")?.as_str()? {
+                "k" => "k",
+                "s" => "s",
+                "ks" => "k, s",
+                _ => return None,
+            };
+            let c = q.get("c")?.as_i64()?;
+            format!(
+                "SELECT {keys}, count(*) FILTER (WHERE v > {c}), sum(1) FILTER (WHERE v > {c}), sum(v) FILTER (WHERE v > {c}), count(*), max(v) FILTER (WHERE k IS NOT NULL) FROM a GROUP BY {keys}"
+            )
+        }
+        "groupby_avg" => {
+            let keys = match q.get("keys")?.as_str()? {
+                "k" => "k",
+                "s" => "s",
+                "ks" => "k, s",
+                _ => return None,
+            };
+            let c = q.get("c")?.as_i64()?;
+            // (small integers: the float average is exact, so it cannot depend on the summation order)
+            format!("SELECT {keys}, avg(v), avg(v) FILTER (WHERE v > {c}), count(v), min(s), max(s) FROM a GROUP BY {keys}")
+        }
         "global" => "SELECT count(*), count(v), sum(v), min(v), max(v), count(DISTINCT k) FROM a".to_string(),
         "distinct" => "SELECT DISTINCT k, s FROM a".to_string(),
         "topk_agg" => format!(
@@ -138,6 +172,19 @@ pub fn sql(q: &Value) -> Option<String> {
                 Some(n) => format!(" LIMIT {}", n.as_u64()?),
             };
             format!("SELECT id, k, s, v FROM a ORDER BY {by} {dir} {nulls}, id{limit}")
+        }
+        "sort1" => {
+            let by = q.get("by")?.as_str()?;
+            if !["k", "s", "v"].contains(&by) {
+                return None;
+            }
+            let dir = if q.get("desc")?.as_bool()? { "DESC" } else { "ASC" };
+            let nulls = if q.get("nulls_first")?.as_bool()? { "NULLS FIRST" } else { "NULLS LAST" };
+            let limit = match q.get("limit") {
+                Some(Value::Null) | None => String::new(),
+                Some(n) => format!(" LIMIT {}", n.as_u64()?),
+            };
+            format!("SELECT {by} FROM a ORDER BY {by} {dir} {nulls}{limit}")
         }
         "filter" => format!("SELECT id, k, s, v FROM a WHERE v > {} OR k IS NULL", q.get("c")?.as_i64()?),
         "union_all" => "SELECT id, k FROM a UNION ALL SELECT id, k FROM b".to_string(),
@@ -161,7 +208,7 @@ pub fn uses_b(q: &Value) -> bool {
 
 /// Whether the result is a sequence (total ORDER BY) rather than a multiset.
 pub fn ordered(q: &Value) -> bool {
-    matches!(q.get("t").and_then(|t| t.as_str()).unwrap_or(""), "sort" | "topk_agg" | "limit")
+    matches!(q.get("t").and_then(|t| t.as_str()).unwrap_or(""), "sort" | "sort1" | "topk_agg" | "limit")
 }
 
 fn i(x: i64) -> Option<String> {
@@ -315,6 +362,43 @@ pub fn reference(q: &Value, a: &[Row], b: &[Row]) -> Option<Vec<Cells>> {
                 })
                 .collect()
         }
+        "groupby_filter" => {
+            let keys = q.get("keys")?.as_str()?;
+            let c = q.get("c")?.as_i64()?;
+            // (count*, sum1, sumv) FILTER (v > c), count(*), max(v) FILTER (k IS NOT NULL)
+            let mut groups: BTreeMap<(Option<i32>, Option<String>), (i64, Option<i64>, Option<i64>, i64, Option<i64>)> = BTreeMap::new();
+            for r in a {
+                let k = match keys {
+                    "k" => (r.k, None),
+                    "s" => (None, r.s.clone()),
+                    _ => (r.k, r.s.clone()),
+                };
+                let e = groups.entry(k).or_insert((0, None, None, 0, None));
+                e.3 += 1;
+                if let Some(v) = r.v {
+                    if v > c {
+                        e.0 += 1;
+                        e.1 = Some(e.1.unwrap_or(0) + 1);
+                        e.2 = Some(e.2.unwrap_or(0) + v);
+                    }
+                    if r.k.is_some() {
+                        e.4 = Some(e.4.map_or(v, |m: i64| m.max(v)));
+                    }
+                }
+            }
+            groups
+                .into_iter()
+                .map(|((k, s), e)| {
+                    let mut row: Cells = match keys {
+                        "k" => vec![k.map(|x| x.to_string())],
+                        "s" => vec![s],
+                        _ => vec![k.map(|x| x.to_string()), s],
+                    };
+                    row.extend([i(e.0), oi(e.1), oi(e.2), i(e.3), oi(e.4)]);
+                    row
+                })
+                .collect()
+        }
         "global" => {
             let mut acc = Acc::default();
             let mut ks = std::collections::BTreeSet::new();
@@ -342,6 +426,34 @@ pub fn reference(q: &Value, a: &[Row], b: &[Row]) -> Option<Vec<Cells>> {
             let mut v: Vec<(Option<i32>, Option<i64>)> = groups.into_iter().collect();
             v.sort_by(|x, y| cmp_opt(&x.1, &y.1, true, false).then(cmp_opt(&x.0, &y.0, false, false)));
             v.into_iter().take(n).map(|(k, m)| vec![k.map(|x| x.to_string()), oi(m)]).collect()
+        }
+        "sort1" => {
+            let by = q.get("by")?.as_str()?.to_string();
+            let desc = q.get("desc")?.as_bool()?;
+            let nf = q.get("nulls_first")?.as_bool()?;
+            let limit = match q.get("limit") {
+                Some(Value::Null) | None => usize::MAX,
+                Some(n) => n.as_u64()? as usize,
+            };
+            let mut vals: Vec<Option<String>> = vec![];
+            match by.as_str() {
+                "k" => {
+                    let mut x: Vec<Option<i32>> = a.iter().map(|r| r.k).collect();
+                    x.sort_by(|p, q| cmp_opt(p, q, desc, nf));
+                    vals.extend(x.into_iter().map(|v| v.map(|y| y.to_string())));
+                }
+                "v" => {
+                    let mut x: Vec<Option<i64>> = a.iter().map(|r| r.v).collect();
+                    x.sort_by(|p, q| cmp_opt(p, q, desc, nf));
+                    vals.extend(x.into_iter().map(|v| v.map(|y| y.to_string())));
+                }
+                _ => {
+                    let mut x: Vec<Option<String>> = a.iter().map(|r| r.s.clone()).collect();
+                    x.sort_by(|p, q| cmp_opt(p, q, desc, nf));
+                    vals.extend(x);
+                }
+            }
+            vals.into_iter().take(limit).map(|v| vec![v]).collect()
         }
         "sort" => {
             let by = q.get("by")?.as_str()?.to_string();
